@@ -34,7 +34,7 @@ _DANGLING = re.compile(r"^\s*(and|or)\b|\b(and|or)\s*$|\b(and|or)\s+(and|or)\b|\
 
 def tasks(tier, seed):
     global CASE_TIMEOUT
-    CASE_TIMEOUT = 2.5 if tier == "quick" else 15.0
+    CASE_TIMEOUT = 2.5 if tier == "quick" else 6.0
     n = 2400 if tier == "quick" else 48000
     shards = 48 if tier == "quick" else 192
     t = [(MOD, "hyp", (n // shards, seed * 1_000_003 + i, tier)) for i in range(shards)]
